@@ -2,14 +2,15 @@ import LdarModel.Model.Effects
 import LdarModel.Driver.Proto
 /-
 Driver for the effect model (C12): evaluates the abstract machine on small schedules.
-  run <reseed 0/1> <seedA> <seedB> <progs> <workers>
+  run <reseed 0/1> <copies 0/1> <seedA> <seedB> <progs> <workers>
      op      = [tag,a,b]  tag 0 seed a | 1 draw gen a (0 numpyGlobal,1 stdlibRandom,2 other) | 2 read a
-                          | 3 write a b | 4 comp a | 5 emit
+                          | 3 write a b | 4 comp a | 5 emit | 6 touch a b | 7 look a
      prog    = [[op,...],[[op,...],...],[op,...]]          prologue, days, epilogue
      progs   = [prog,...]
      worker  = [np,std,oth,[[progIndex,sim],...]]
      workers = [worker,...]
-     generator folder: seed sim d = seedA*sim + d + seedB ; scenario sim = sim + 3 ; shared containers start empty
+     generator folder: seed sim d = seedA*sim + d + seedB ; scenario sim = sim + 3 ; shared containers and
+     infrastructure objects start empty; copies = every task deep-copies the infrastructure objects
   -> <outputs per worker per task> | <the same tasks run alone> | <clean flag per prog (all containers relevant)>
 -/
 open LdarModel LdarModel.Effects LdarModel.Proto
@@ -28,6 +29,8 @@ def parseOp (s : String) : Option Op := do
   | [3, a, b] => some (.write a b)
   | [4, a, _] => some (.comp a)
   | [5, _, _] => some .emit
+  | [6, a, b] => some (.touch a b)
+  | [7, a, _] => some (.look a)
   | _ => none
 
 def parseProg (s : String) : Option Prog := do
@@ -56,19 +59,21 @@ def showOut (o : List Nat) : String := showList toString o
 
 def step (_ : Unit) (toks : List String) : Unit × String :=
   match toks with
-  | ["run", rs, a, b, progs, workers] =>
-    match bool? rs, nat? a, nat? b, listOf? parseProg progs with
-    | some rs, some a, some b, some progs =>
+  | ["run", rs, cp, a, b, progs, workers] =>
+    match bool? rs, bool? cp, nat? a, nat? b, listOf? parseProg progs with
+    | some rs, some cp, some a, some b, some progs =>
       match listOf? (parseWorker progs) workers with
       | some ws =>
-        let F : Folder := { seed := fun sim d => a * sim + d + b, scenario := fun sim => sim + 3 }
+        let F : Folder := { seed := fun sim d => a * sim + d + b, scenario := fun sim => sim + 3,
+                            objects := fun _ _ => [] }
+        let rs : Mode := { reseed := rs, copies := cp }
         let sh0 : Nat → List Nat := fun _ => []
         let outs := runSchedule rs F sh0 ws
         let al := ws.map (fun w => w.tasks.map (alone rs F sh0))
         let cl := progs.map (fun p => p.clean (fun _ => true))
         ((), showList (showList showOut) outs ++ " | " ++ showList (showList showOut) al ++ " | " ++ showList showBool cl)
       | none => ((), "bad-op")
-    | _, _, _, _ => ((), "bad-op")
+    | _, _, _, _, _ => ((), "bad-op")
   | _ => ((), "bad-op")
 
 def main : IO Unit := runDriver step ()
